@@ -60,7 +60,7 @@ static double boundOf (const std::string& what)
         {"slerpShortestArc-angle", 8},    // angle(q1, r(t)) = t * theta', theta' <= pi/2
         {"squad-keys", 8},
         {"spline-keys", 8},
-        {"spline-tangent", 1},            // Richardson-extrapolated one-sided differences at the joint (two step sizes); scale = tol * speed, tol = 5e-9 (double) / 1e-2 (float)
+        {"spline-tangent", 1},            // Richardson-extrapolated one-sided differences at the joint (two step sizes); scale = tol * speed, tol = 5e-9 (double) / 3e-2 (float)
     };
     auto it = B.find (what);
     return it == B.end () ? 0 : it->second;
@@ -651,7 +651,7 @@ template <class T> static void splineChecks (int variant)
         auto S2 = [&] (T t) { return toL (spline (K[1], K[2], K[3], K[4], t)); };
         auto comb = [] (L a, const LQ& x, L b, const LQ& y, L c, const LQ& z) { return LQ{a * x.r + b * y.r + c * z.r, a * x.x + b * y.x + c * z.x, a * x.y + b * y.y + c * z.y, a * x.z + b * y.z + c * z.z}; };
         L eps = (L) std::numeric_limits<T>::epsilon ();
-        L tol = isF ? 1e-2L : 5e-9L; // clean-tree maxima (seeds 1-3): 1.5e-3 (float, rounding-dominated), 5.7e-10 (double)
+        L tol = isF ? 3e-2L : 5e-9L; // clean-tree maxima (seeds 1-3 quick, seed 1 thorough): 8e-3 (float, rounding-dominated), 6.3e-10 (double)
         for (int w = 0; w < 2; ++w)
         {
             T h = (T) ldexp (1.0, isF ? -(6 + w) : -(12 + w));
